@@ -238,6 +238,10 @@ def c02_families(tier, seed, ids=None):
                      assign("col", fn([], block([assign("a", lst([])), fr(["e", "n"], [call("gen"), call("fromto", I(0), I(9))], assign("a", bin_("+", N("a"), lst([N("e"), N("n")])))), N("a")]))), call("col")]
         nm.append(mk(ids, items, {"nest": [k1, k2, k3, pos, where]}))
     out.append(("loops nested directly in loop bodies: iterator counts x position x placement", nm, ("value",)))
+    # what a loop binds when its iterator expressions mention a name that is also one of its own variables (the expression sees the
+    # enclosing variable): the family is shared with C04
+    shared = [f for f in c04_families(tier, seed, Ids(8000000)) if f[0].startswith("a statement introduces a name")]
+    out.append(("iterator expressions that mention the loop's own variable names", shared[0][1], ("value",)))
     return out
 
 
@@ -627,6 +631,16 @@ def c05_families(tier, seed, ids=None):
                   call("toa", lst([N("s")])), call("aton", N("s")), call("write", ix1(N("s"), I(1))), I(1)]
         na.append(mk(ids, items, {"non-ascii": txt}))
     out.append(("strings whose byte and character counts differ: index, slice, iterate", na, ("nocrash",)))
+    # frames far wider than one allocation unit of the stack, called at top level, below a recursion of every depth from 0 to 70 (so that the
+    # frame lands at every offset from an allocation boundary), inside a generator and after the stack has grown
+    wf = []
+    for n in (130, 141, 257, 300, 600):
+        d, vs = wide_fn("wide", n, lambda vs: [bin_("+", N(vs[0]), N(vs[-1]))])
+        below = assign("below", fn(["k"], ife(bin_("==", N("k"), I(0)), call("wide", I(2)), bin_("+", I(0), call("below", bin_("-", N("k"), I(1)))))))
+        items = [d, below, call("wide", I(2)), assign("acc", lst([])), fr(["k"], [call("fromto", I(0), I(71))], assign("acc", bin_("+", N("acc"), lst([call("below", N("k"))])))), N("acc"),
+                 assign("gen", fn([], block([y(call("wide", I(3))), y(call("below", I(40)))]))), fr(["e"], [call("gen")], N("e")), call("below", I(300)), call("wide", I(2)), I(1)]
+        wf.append(mk(ids, items, {"wide": n}))
+    out.append(("frames wider than the stack's allocation unit at every offset from a boundary", wf, ("value",)))
     # declarations the grammar admits although they mean little: repeated parameter or loop-variable names, names of built-ins
     # reused for parameters / locals / loop variables, a function whose parameter is also assigned, called and looped over
     od = []
@@ -897,6 +911,8 @@ def c10_ops():
         ops.append(("prefixlit5", lambda t=t: assign(t, call("plb", un("#", N(t))))))
         ops.append(("litloop", lambda t=t: fr(["q"], [call("fromto", I(0), I(2))], assign(t, bin_("+", call("lit"), lst([N("q")]))))))
         # a value captured by a generator closure, yielded several times while the consumer calls other closures (and plain functions) in between
+        # the text of a value, kept (whole and a slice of it) while other values are turned into text
+        ops.append(("toakeep", lambda t=t: block([assign("ks", call("toa", N(t))), assign("kt", ix2(call("toa", lst([N(t), I(5)])), I(0), I(3))), I(0)])))
         ops.append(("gencapture", lambda t=t: block([assign("kgen", call("mkgen", N(t))), assign("kget", call("mkcl", lst([N(t), I(77)]))), I(0)])))
         ops.append(("genconsume", lambda t=t: block([assign("acc", lst([])), fr(["v"], [call("kgen")], block([assign("acc", bin_("+", N("acc"), lst([N("v")]))), assign("oth", call("kget")), assign(t, call("cat", N(t)))])), lst([N("acc"), N("oth")])])))
         ops.append(("genconsume-in-fn", lambda t=t: block([assign("gcf", fn(["g", "h"], block([assign("acc", lst([])), fr(["v"], [call("g")], block([assign("acc", bin_("+", N("acc"), lst([N("v")]))), call("h")])), N("acc")]))), call("gcf", N("kgen"), N("kget"))])))
@@ -911,14 +927,16 @@ def c10_families(tier, seed, ids=None):
                assign("mkcl", fn(["a"], fn([], N("a")))), assign("kcl", call("mkcl", lst([I(0)]))),
                assign("mkgen", fn(["a"], fn([], block([y(N("a")), y(N("a")), y(N("a"))])))), assign("kgen", call("mkgen", lst([I(1), I(2)]))), assign("kget", call("mkcl", lst([I(9)]))),
                assign("pla", fn(["x"], lst([I(1), I(2), I(3), N("x")]))), assign("plb", fn(["x"], lst([I(1), I(2), I(3), I(4), I(5), N("x"), bin_("+", N("x"), I(1))]))),
-               assign("va", lst([I(1), I(2), I(3), I(4)])), assign("vb", lst([I(5), I(6)])), assign("vc", lst([lst([I(1)]), lst([I(2), I(3)])])), assign("vd", lst([]))]
+               assign("va", lst([I(1), I(2), I(3), I(4)])), assign("vb", lst([I(5), I(6)])), assign("vc", lst([lst([I(1)]), lst([I(2), I(3)])])), assign("vd", lst([])),
+               assign("ks", call("toa", lst([I(10), I(20), I(30), I(40)]))), assign("kt", call("toa", lst([St("k")])))]
     sprelude = [assign("cat", fn(["x"], bin_("+", N("x"), St("z")))), assign("lit", fn([], St("lmn"))),
                 assign("reclit", fn(["n"], ife(bin_("==", N("n"), I(0)), St("rs"), bin_("+", call("reclit", bin_("-", N("n"), I(1))), St("t"))))),
                 assign("mkcl", fn(["a"], fn([], N("a")))), assign("kcl", call("mkcl", St("k"))),
                 assign("mkgen", fn(["a"], fn([], block([y(N("a")), y(N("a")), y(N("a"))])))), assign("kgen", call("mkgen", St("gg"))), assign("kget", call("mkcl", St("hh"))),
                 assign("pla", fn(["x"], bin_("+", St("123"), call("toa", N("x"))))), assign("plb", fn(["x"], bin_("+", St("12345"), call("toa", N("x"))))),
-                assign("va", St("abcd")), assign("vb", St("ef")), assign("vc", St("g")), assign("vd", St(""))]
-    probe = call("toa", lst([N("va"), N("vb"), N("vc"), N("vd"), call("kcl"), call("lit"), call("reclit", I(2))]))
+                assign("va", St("abcd")), assign("vb", St("ef")), assign("vc", St("g")), assign("vd", St("")),
+                assign("ks", call("toa", lst([St("x10"), St("y20")]))), assign("kt", call("toa", lst([I(7)])))]
+    probe = call("toa", lst([N("va"), N("vb"), N("vc"), N("vd"), call("kcl"), call("lit"), call("reclit", I(2)), N("ks"), N("kt")]))
     ops = c10_ops()
     ss = []
     if tier == "quick":
@@ -1062,7 +1080,7 @@ def c17_families(tier, seed, ids=None):
     rnd = random.Random(seed)
     out = []
     vals = [I(0), I(7), I(-3), I(1000), I(-1000), I(123456789), I(1 << 20), Fl(3, 1), Fl(1, 3), Fl(5, 2, True), Fl(0, 0), bin_("/", Fl(1, 0), Fl(0, 0)), bin_("/", Fl(0, 0), Fl(0, 0)),
-            Bo(True), Bo(False), St(""), St("ab"), St("a b\n"), lst([]), lst([I(1), Fl(1, 1), St("x"), Bo(True)]), lst([lst([I(1)]), lst([])]), N("id"), lst([N("id")])]
+            Bo(True), Bo(False), St(""), St("ab"), St("a b\n"), St("100%"), St("5%d left, %s %v %%"), lst([St("%d"), lst([St("%")])]), lst([]), lst([I(1), Fl(1, 1), St("x"), Bo(True)]), lst([lst([I(1)]), lst([])]), N("id"), lst([N("id")])]
     ss = []
     for v in vals:
         ss.append(mk(ids, [props_IDF(), call("toa", v), call("write", v), call("write", call("toa", v)), bin_("==", call("toa", call("toa", v)), call("toa", v)), un("#", call("toa", v))], {"toa": pe(v)}))
@@ -1188,7 +1206,7 @@ def c19_families(tier, seed, ids=None):
     # operand and parameter values whose rendering is cut at 20 characters: elements that render to nothing, to one character, long
     # strings, nested arrays -- as operand of the failing instruction and as parameter of every active call
     rows = [lst([St("")] * 7 + [St("x"), St("y")]), lst([St("")] * 12), lst([St("")] * 3 + [I(1)] * 9), lst([I(i) for i in range(12)]), lst([St("ab")] * 8),
-            St("abcdefghijklmnopqrstuvwxyz"), lst([lst([St("")] * 4)] * 4), lst([St(""), St("")]), lst([]), St("")]
+            St("abcdefghijklmnopqrstuvwxyz"), lst([lst([St("")] * 4)] * 4), lst([St(""), St("")]), lst([]), St(""), St("50%"), St("%d items"), lst([St("%s"), St("%v%%")]), St("%")]
     for k, row in enumerate(rows):
         ss.append(mk(ids, base + [assign("row", row), assign("pick", fn(["r", "i"], ix1(N("r"), N("i")))), call("pick", N("row"), I(99)),
                                   assign("sum", fn(["r"], block([assign("t", I(0)), fr(["e"], [call("elems", N("r"))], assign("t", bin_("+", N("t"), call("aton", St("zz"))))), N("t")]))),
